@@ -446,6 +446,21 @@ def structural_variants(data):
         yield "line:only-first-no-newline", full[0].rstrip(b"\n")
         yield "line:first+last", full[0] + full[-1]
 
+
+def header_bitflips(data, case_only=False):
+    """every single-bit flip of every byte of the Proc-Type / DEK-Info header lines of an encrypted legacy PEM file
+    (``case_only``: just the 0x20 flips of letters, i.e. letter-case changes)"""
+    m = re.search(rb"Proc-Type: [^\n]*\nDEK-Info: [^\n]*", data)
+    if not m:
+        return
+    for i in range(m.start(), m.end()):
+        for bit in range(8):
+            if case_only and not (bit == 5 and chr(data[i]).isalpha()):
+                continue
+            b = bytearray(data)
+            b[i] ^= 1 << bit
+            yield "header-bitflip=%d.%d" % (i - m.start(), bit), bytes(b)
+
 class Guard:
     """patches the bcrypt module seen by the key readers so that absurd round counts are not executed"""
 
